@@ -182,9 +182,9 @@ impl Loader {
         }
     }
 
-    pub fn parse_with_parser(
+    pub fn parse_with_parser<'text>(
         &mut self,
-        parser: &mut parse::Parser,
+        parser: &mut parse::Parser<'text>,
         path: PathBuf,
         envs: &[&dyn eval::Env],
     ) -> anyhow::Result<()> {
@@ -200,7 +200,24 @@ impl Loader {
             };
 
             match stmt {
-                Statement::Include(in_path) | Statement::Subninja(in_path) => {
+                Statement::Include(in_path) => {
+                    let id = self.evaluate_path(in_path, &[&parser.vars]);
+                    let (path, bytes) = self.read_file_by_id(id)?;
+                    // `include` shares the scope of the including file: bindings
+                    // made in the included file remain visible afterwards.
+                    // Variable names borrow from the file's text, so that text
+                    // has to stay alive as long as the including parser does.
+                    let bytes: &'text [u8] = Box::leak(bytes.into_boxed_slice());
+                    let mut sub_parser = parse::Parser::new(bytes);
+
+                    sub_parser.inherit(&parser);
+                    self.parse_with_parser(&mut sub_parser, path, envs)?;
+                    for (k, v) in sub_parser.vars.get_all() {
+                        parser.vars.insert(k, v.clone());
+                    }
+                }
+
+                Statement::Subninja(in_path) => {
                     let id = self.evaluate_path(in_path, &[&parser.vars]);
                     let (path, bytes) = self.read_file_by_id(id)?;
                     let bytes = std::rc::Rc::new(bytes);
